@@ -70,7 +70,7 @@ impl Property for C26 {
         tier.pick(1500, 100_000)
     }
     fn strategy(&self, tier: Tier) -> BoxedStrategy<Case> {
-        (docgen::document(tier), proptest::collection::vec(any::<u16>().prop_map(PosSel::At), 4..tier.pick(12, 24)), proptest::bool::weighted(0.1))
+        (docgen::document(tier), proptest::collection::vec(prop_oneof![3 => any::<u16>().prop_map(PosSel::At), 2 => any::<u16>().prop_map(PosSel::LineEnd)], 4..tier.pick(12, 24)), proptest::bool::weighted(0.1))
             .prop_map(|((text, src), positions, std_lib)| Case { text, src, positions, std_lib })
             .boxed()
     }
